@@ -29,6 +29,7 @@ TIE = ("Tie to /repo, checked on every run: the current sources are copied to bu
        "is replayed access by access on the extracted Coq model - histories, final-state digests and the number of accesses per call must coincide - and independent monitors "
        "on the implementation's histories turn a broken tie into a concrete replay. ")
 
+PT = "Model Pool/PoolModel.v (hand-written step machine: one step per shared access - state word, RWMutex, closed flag, queue channel, wait group, expanded counter, timers, result channels; select non-determinism = oracle stream). Channels/RWMutex/WaitGroup/Timer are modelled by their documented semantics (the shim implementations the lockstep run uses are trusted to match the Go runtime). Liveness and timing clauses are not theorems. Axiom-free."
 CLAIMS = {
  "C01": ("5.1", "Coq theorems over the hand-written step machines, for every client program and every interleaving: the lock-free queue is linearizable as a FIFO queue at explicit linearization points (Offer/Poll/Peek/IsEmpty) and hence (generic theorem lin_ok_hw) in the Herlihy-Wing sense, its linked-list invariants hold in every reachable state and no step dereferences nil; the mutex queue is linearizable as a FIFO queue with Size/IsEmpty, for interleavings that also split a writer's plain read from its plain write. " + TIE,
          "Models Queue/JdkModel.v, Queue/MutexModel.v (hand-written). _v of a node is assumed immutable and iterator objects thread-owned (checked dynamically by the statement-level hunt build, not proved). Go memory model: DRF-SC assumed. Axiom-free."),
@@ -52,6 +53,16 @@ CLAIMS = {
          "Models Queue/JdkModel.v, Queue/MutexModel.v. Size saturation at MaxInt32 and int32(l.Len()) wrap excluded by hypothesis (fewer than 2^31-1 elements). Axiom-free."),
  "C16": ("5.16", "Coq theorems. JDKAdder / JDKF64Adder: from every state reachable by ANY alternation of single-goroutine phases over the whole API (Sum, Store, Reset, SumAndReset, updates) and concurrent update phases that have finished - however much the table has grown - a single goroutine gets exactly the results of the plain number those phases compute, and the state stays good for the next phase; the proof exhibits that Store breaks the concurrent invariant (old arrays keep old cells: the reason Store is documented unsafe under concurrency) and identifies the weaker predicate that survives. RandomCellAdder: the same alternation-of-phases theorem. MutexAdder whole API linearizable; AtomicAdder/AtomicF64Adder linearizable without SumAndReset and, single-goroutine, exact over the whole API. " + TIE,
          "Models Adder/StripedModel.v, Adder/SimpleModel.v. Stored values in int64 range. Axiom-free."),
+ "C04": ("5.4", "Coq theorems for every pool size, expansion limit, autostart flag, select-oracle stream, set of client programs (Do/TryDo/Execute/TryExecute/Start/Stop/cancel/gates/timers) and EVERY interleaving: token accounting - a task is in at most one place (submitter, queue, one worker, Stop's drain), is executed at most once, its result channel holds at most one value, a value is the executor's own and implies exactly one execution, a context error implies no execution (refused => never run; run => no context error); no thread ever faults. That the single result is eventually delivered is liveness (hang detection of the controlled runs), not a theorem. " + TIE,
+         PT),
+ "C08": ("5.8", "Coq theorems, all configurations/clients/interleavings: once Stop is past wg.Wait() (draining or returned) the wait group is zero, EVERY goroutine the pool ever started has finished, no timer is armed or holds an unreceived expiry, and this is stable under any further schedule (nothing is started afterwards, the queue only shrinks; Start/Stop idempotent); the wait group always equals the number of live pool goroutines; an armed timer always belongs to a live expanded worker; at most nw + #Do goroutines are ever started. 'Stop returns' (termination) is covered by hang detection on the real code, not a theorem. " + TIE,
+         PT),
+ "C11": ("5.11", "Coq theorems, all configurations/clients/interleavings, under limit + #client threads < 2^31 (int32 counter cannot wrap): the number of threads inside an executor never exceeds NumberWorker + ExpandableLimit; reserve-then-spawn accounting identity for the expanded counter (live + reserved - decremented <= limit); at most NumberWorker fixed workers. 'Reaches the cap' and 'expansion is temporary' are liveness/timing clauses: checked on the real code by gated-task scenarios (high-water mark, counter back to zero), not theorems. " + TIE,
+         PT),
+ "C12": ("5.12", "Coq theorems, all configurations (DisableAutoStart included)/clients/interleavings of submissions with Start and Stop: no thread ever faults (no send on a closed channel, no double close, no negative wait group), the state word only moves forward, and no task is stranded in the sense of token accounting: each task keeps exactly one token until exactly one result is delivered (executed once with its own value, or a context error without execution). Eventual delivery is liveness (hang detection on the real code). " + TIE,
+         PT),
+ "C17": ("5.17", "Coq theorems, all configurations/clients/interleavings: no step of TryDo/TryExecute other than taking the read lock is ever disabled; the read lock is refused only while Stop is inside its two-step critical section, whose steps never block; the queue never holds more than one waiting task. 'Do blocks until a worker frees up or ctx is cancelled' is model semantics of select plus the saturation scenarios on the real code; promptness is timing, not a theorem. " + TIE,
+         PT),
  "C19": ("5.19", "Coq theorems: MutexLinkedQueue (Offer, Poll, Peek, Size, IsEmpty) and MutexAdder (Add, Inc, Dec, Sum, Store, Reset, SumAndReset) are linearizable at explicit points for every program and interleaving, with writers' critical sections split into a plain read step and a plain write step so that mutual exclusion is what the proof uses. " + TIE,
          "Models Queue/MutexModel.v, Adder/SimpleModel.v mutex_adder. sync.RWMutex modelled without writer preference (only removes behaviours). Axiom-free."),
 }
